@@ -56,7 +56,12 @@ func (r RemoveIntersections) processSchema(v *Visitor, schema *ast.Schema) (*ast
 
 	// the references found anywhere else — the items of a list, the values of a map,
 	// the branches of a union — follow the objects that are removed as well
-	redirect := &Visitor{OnRef: r.redirectReference, OnConstantRef: r.redirectConstantReference}
+	redirect := &Visitor{
+		OnRef:         r.redirectReference,
+		OnConstantRef: r.redirectConstantReference,
+		OnDisjunction: r.redirectDisjunction,
+		OnStruct:      r.redirectStruct,
+	}
 	schema.Objects.Iterate(func(key string, object ast.Object) {
 		if foundErr != nil {
 			return
@@ -164,6 +169,67 @@ func (r RemoveIntersections) redirectReference(visitor *Visitor, schema *ast.Sch
 	}
 
 	return newType, nil
+}
+
+// redirectDisjunction redirects what a union designates by name: the entries of
+// its discriminator mapping, besides its branches.
+func (r RemoveIntersections) redirectDisjunction(visitor *Visitor, schema *ast.Schema, def ast.Type) (ast.Type, error) {
+	if err := r.redirectInDisjunction(visitor, schema, def.Disjunction); err != nil {
+		return ast.Type{}, err
+	}
+
+	return def, nil
+}
+
+func (r RemoveIntersections) redirectInDisjunction(visitor *Visitor, schema *ast.Schema, disjunction *ast.DisjunctionType) error {
+	for discriminator, typeName := range disjunction.DiscriminatorMapping {
+		// the package of an entry is the package of the branch it designates
+		designatedPkg := schema.Package
+		for _, branch := range disjunction.Branches {
+			if branch.IsRef() && branch.Ref.ReferredType == typeName {
+				designatedPkg = branch.Ref.ReferredPkg
+				break
+			}
+		}
+		if designatedPkg != schema.Package {
+			continue
+		}
+
+		if replacement, removed := r.replacementOf(typeName); removed && replacement.Name != typeName {
+			disjunction.DiscriminatorMapping[discriminator] = replacement.Name
+		}
+	}
+
+	var err error
+	for i, branch := range disjunction.Branches {
+		disjunction.Branches[i], err = visitor.VisitType(schema, branch)
+		if err != nil {
+			return err
+		}
+	}
+
+	return nil
+}
+
+// redirectStruct also redirects what a struct generated from a union keeps of it
+// in its hints: the branches and the mapping the (un)marshallers are generated from.
+func (r RemoveIntersections) redirectStruct(visitor *Visitor, schema *ast.Schema, def ast.Type) (ast.Type, error) {
+	// hints can be set by users: the value isn't necessarily a disjunction.
+	if disjunction, ok := def.Hints[ast.HintDiscriminatedDisjunctionOfRefs].(ast.DisjunctionType); ok {
+		if err := r.redirectInDisjunction(visitor, schema, &disjunction); err != nil {
+			return ast.Type{}, err
+		}
+	}
+
+	var err error
+	for i, field := range def.Struct.Fields {
+		def.Struct.Fields[i], err = visitor.VisitStructField(schema, field)
+		if err != nil {
+			return ast.Type{}, err
+		}
+	}
+
+	return def, nil
 }
 
 // redirectConstantReference does the same for the references to a member of an enum.
